@@ -58,15 +58,9 @@ ASSUMPTIONS = [
     "returned is only counted as information",
     "a get_action that raises on an observation alone (no mask, default flags) is C15's business: information only",
 ]
-REQUIRED_COUNTERS = [
-    "legal_rows",
-    "bound_rows",
-    "mask_rows",
-    "greedy_rows",
-    "many_draw_rows",
-    "bandit_value_taps",
-    "fed_draw_calls",
-]
+# every deciding monitor must have fired for every algorithm family present in the run: see finalize()
+# (per-family requirements instead of a flat list so that replaying a single case stays decidable)
+REQUIRED_COUNTERS = ["legal_rows"]
 CASE_TIMEOUT_S = 180
 
 VALUE_DISCRETE = ["DQN", "RainbowDQN", "CQN"]
@@ -107,7 +101,7 @@ def cases(tier, seed):
     rng = np.random.default_rng(1400 + seed)
     quick = tier == "quick"
     depth = 1 if quick else 2
-    reps = 1 if quick else 3
+    reps = 1 if quick else 4
     out = []
     rot = [0]
 
@@ -434,6 +428,7 @@ def check_legal(cx, space, action, B, mode, where, strict_shape=None, **detail):
         rec.hit("strict_shape_mismatch(info)")
         rec.extra.setdefault("strict_shape_mismatch", {"algo": cx.algo, "got": list(a.shape), "want": list(want)})
     rec.hit("legal_rows", B)
+    rec.hit(f"legal_rows:{cx.algo}", B)
     if isinstance(space, (spaces.Discrete, spaces.MultiDiscrete)):
         if a.dtype.kind not in "iu":
             rec.violate("legal_action", "discrete_action_not_integer_dtype", cx.site, algo=cx.algo, dtype=str(a.dtype),
@@ -483,6 +478,7 @@ def check_legal(cx, space, action, B, mode, where, strict_shape=None, **detail):
             )
         return rows
     rec.hit("bound_rows", B)
+    rec.hit(f"bound_rows:{cx.algo}", B)
     if (strict_out & ~out).any():
         rec.hit("within_float32_tolerance_of_bound(info)")
     if out.any():
@@ -535,6 +531,7 @@ def check_mask(cx, space, rows, mask_rows, where, kind_suffix="", logits=None, *
                 rec.hit("mask_rows_nothing_allowed")
                 continue
             rec.hit("mask_rows")
+            rec.hit(f"mask_rows:{cx.algo}")
             if not M[r].all():
                 cx.mixed_mask_rows += 1
             a = int(rows[r, 0])
@@ -553,6 +550,7 @@ def check_mask(cx, space, rows, mask_rows, where, kind_suffix="", logits=None, *
                 rec.hit("mask_rows_nothing_allowed")
                 continue
             rec.hit("mask_rows")
+            rec.hit(f"mask_rows:{cx.algo}")
             if not M[r].all():
                 cx.mixed_mask_rows += 1
             off = 0
@@ -565,6 +563,7 @@ def check_mask(cx, space, rows, mask_rows, where, kind_suffix="", logits=None, *
                 off += int(kk)
         elif isinstance(space, spaces.MultiBinary):
             rec.hit("mask_rows")
+            rec.hit(f"mask_rows:{cx.algo}")
             if not M[r].all():
                 cx.mixed_mask_rows += 1
             if ((rows[r] == 1) & ~M[r]).any():
@@ -597,6 +596,7 @@ def check_greedy(cx, rows, scores, mask_rows, where, **detail):
         if not (0 <= a < n) or not M[r, a]:
             continue  # the legality / mask monitors own this
         rec.hit("greedy_rows")
+        rec.hit(f"greedy_rows:{cx.algo}")
         best = S[r][M[r]].max()
         if (S[r][M[r]] == best).sum() > 1:
             rec.hit("greedy_rows_with_ties")
@@ -747,6 +747,7 @@ def _run_value_discrete(case, rec):
                 chunk = [hostile[(s + i) % len(hostile)] for i in range(B)]
                 M = np.stack(chunk)
                 rec.hit("fed_draw_calls")
+                rec.hit(f"fed_draw_calls:{algo}")
                 try:
                     with _FedZeroDraws(algo, M):
                         a = act(obs, 1.0, M.copy())
@@ -850,6 +851,7 @@ def _run_bandit(case, rec):
         recs = tap.get("values")
         if recs and "action_values" in recs[-1].values:
             rec.hit("bandit_value_taps")
+            rec.hit(f"bandit_value_taps:{algo}")
             vals = np.asarray(recs[-1].values["action_values"], dtype=np.float64).reshape(1, -1)
             if vals.shape[1] == n:
                 check_greedy(cx, rows, vals, None if mask is None else mask[None, :], where, force=case["force"])
@@ -957,6 +959,7 @@ def _run_ppo(case, rec):
             check_mask(cx, asp, rows, mask_rows, where, logits=cap.out.get("logits"), force=case["force"])
             if counter and rows is not None:
                 rec.hit(counter, Bn)
+                rec.hit(f"{counter}:PPO", Bn)
 
     try:
         _ppo_plan(case, rec, cx, agent, osp, asp, rng, masks, is_box, B, one)
@@ -1244,6 +1247,7 @@ def _run_ippo(case, rec):
                            force=case["force"], infos_order=case.get("order"))
                 if counter and rows is not None:
                     rec.hit(counter, Bn)
+                    rec.hit(f"{counter}:IPPO", Bn)
 
     for mode in ("train", "eval"):
         agent.set_training_mode(mode == "train")
@@ -1353,12 +1357,47 @@ def run_case(case):
     return rec.result()
 
 
+def _needs(case):
+    algo, act = case["algo"], case["act"]
+    t = act["type"]
+    out = [f"legal_rows:{algo}"]
+    if t == "box":
+        if act["name"] not in INF_BOXES:
+            out.append(f"bound_rows:{algo}")
+        return out
+    out.append(f"mask_rows:{algo}")
+    if algo in VALUE_DISCRETE or algo in BANDITS or algo in MA_DET:
+        out.append(f"greedy_rows:{algo}")
+    if algo in BANDITS:
+        out.append(f"bandit_value_taps:{algo}")
+    if algo in ("PPO", "IPPO"):
+        out.append(f"many_draw_rows:{algo}")
+    if algo in ("DQN", "CQN") and int(act.get("n", 0)) >= 2:
+        out.append(f"fed_draw_calls:{algo}")
+    return out
+
+
 def finalize(ctx):
-    calls = {k.split(":", 1)[1]: int(v) for k, v in ctx["counters"].items() if k.startswith("calls:")}
+    counters = ctx["counters"]
+    needed = sorted({name for c in ctx["cases"] for name in _needs(c)})
+    for name in needed:
+        if counters.get(name, 0) <= 0:
+            ctx["inconclusive"].append(f"deciding monitor '{name}' never evaluated")
+    # observability lost is never "held"
+    for name in ("greedy_scores_not_captured", "bandit_value_tap_lost", "bandit_tap_problems"):
+        if counters.get(name, 0) > 0:
+            ctx["inconclusive"].append(f"observability lost: {name}={int(counters[name])}")
+    calls = {k.split(":", 1)[1]: int(v) for k, v in counters.items() if k.startswith("calls:")}
     spaces_seen = sorted({c["act"]["type"] + ":" + str(c["act"].get("name", c["act"].get("n", c["act"].get("nvec")))) for c in ctx["cases"]})
+    info = {}
+    for ex in (r.get("extra") or {} for r in ctx["results"].values()):
+        for k, v in ex.items():
+            info.setdefault(k, v)
     return {
         "get_action_calls_per_algorithm": calls,
         "get_action_calls_total": int(sum(calls.values())),
         "action_spaces": spaces_seen,
         "observation_kinds": sorted({c["obs"] for c in ctx["cases"]}),
+        "deciding_monitors_required": needed,
+        "informational_observations": {k: info[k] for k in sorted(info)[:40]},
     }
